@@ -695,7 +695,9 @@ func injected(page []byte) string {
 
 func (h *front) injection() {
 	mux := newMux()
-	sites := []string{"name", "filename", "dirname", "tracker-url", "tracker-error", "webseed-url", "peer-version", "known-version", "peer-id"}
+	// (known-addr-zone: an IPv6 address with a zone, which netip.ParseAddr accepts verbatim
+	// and a tracker's dictionary-format peer list can therefore deliver)
+	sites := []string{"name", "filename", "dirname", "tracker-url", "tracker-error", "webseed-url", "peer-version", "known-version", "peer-id", "known-addr-zone"}
 	n := 0
 	for _, site := range sites {
 		for _, mk := range markers {
@@ -762,6 +764,15 @@ func (h *front) injection() {
 			hs := fx.Tor.Hash.String()
 			if site == "known-version" || site == "peer-version" {
 				fx.Tor.AddKnown(netip.MustParseAddrPort("19.1.2.3:6881"), hash.Hash([]byte("-AB1234-abcdefghijkl")), mk, known.Seen)
+			}
+			if site == "known-addr-zone" {
+				a, err := netip.ParseAddr("2001:db8::1%" + mk)
+				if err != nil {
+					h.res.Add("hostile_inputs_rejected", 1)
+					fx.Close()
+					continue
+				}
+				fx.Tor.AddKnown(netip.AddrPortFrom(a, 6881), hash.Hash([]byte("-AB1234-abcdefghijkl")), "v", known.Tracker)
 			}
 			if site == "peer-id" {
 				id := []byte("-" + (mk + "      ")[:6] + "-abcdefghijkl")
